@@ -463,59 +463,179 @@ def sum_rules(run, db, rule='C06.sum'):
 
 
 def _slice_bounds(dom, s, n):
-    lo = s.lo if not (isinstance(s.lo, Const) and s.lo.v is None) else Const(0)
-    hi = s.hi if not (isinstance(s.hi, Const) and s.hi.v is None) else n
-    return K.R_(dom, lo), K.R_(dom, hi)
+    """[lo, hi) of a slice (or of one integer index) on an axis of length n, negative positions counted from the end."""
+    nr = K.R_(dom, n)
+
+    def pos(v, default):
+        if isinstance(v, Const) and v.v is None:
+            return default
+        r = K.R_(dom, v)
+        af = dom.affine(r)
+        if af is not None and not af[0] and af[1] < 0:
+            return nr + r
+        return r
+    if isinstance(s, Slice):
+        if not (isinstance(s.step, Const) and s.step.v in (None, 1)):
+            raise AnalysisError('stencil: strided slice')
+        return pos(s.lo, K.R_(dom, Const(0))), pos(s.hi, nr)
+    lo = pos(s, None)
+    return lo, lo + 1
+
+
+def _affine_sign(dom, d, nmin=8):
+    """sign of an integer-affine difference of positions for every axis length >= nmin: -1 / 0 / +1, None if it changes"""
+    af = dom.affine(d)
+    if af is None:
+        return None
+    coeffs, c0 = af
+    if not coeffs:
+        return (c0 > 0) - (c0 < 0)
+    if all(c > 0 for c in coeffs.values()):
+        return 1 if c0 + nmin * sum(coeffs.values()) > 0 else None
+    if all(c < 0 for c in coeffs.values()):
+        return -1 if c0 + nmin * sum(coeffs.values()) < 0 else None
+    return None
+
+
+def _unview(v):
+    """(the array a chain of transposed views looks at, is the chain an odd number of transpositions)"""
+    tr = False
+    while isinstance(v, Shaped) and v.origin is not None and v.origin[0] == 'T':
+        v, tr = v.origin[1], not tr
+    return v, tr
 
 
 def stencil(dom, p, axis, xlabel):
-    """Linear map written as slice stores: set of (row_lo, row_hi, col_offset, coeff) along `axis`."""
-    entries = []
+    """The linear map a routine writes into its result through slice stores, along `axis` of the result: a list of bands
+    (row_lo, row_hi, column offset, coefficient): result[r] += coefficient * x[r + offset] for row_lo <= r < row_hi.  A plain store
+    replaces what earlier stores put in the rows it covers; `+=` / `-=` add to it.  Transposed views (moveaxis, swapaxes, .T) of the
+    input and of the result are looked through."""
+    from fractions import Fraction
+    out_arr, out_tr = _unview(p.value)
+    if not isinstance(out_arr, Shaped):
+        raise AnalysisError('stencil: the result is not an array written by slice stores (%r)' % (p.value,))
+    eff = (1 - axis) if out_tr else axis
+    full = lambda z: isinstance(z, Slice) and all(isinstance(q, Const) and q.v is None for q in (z.lo, z.hi, z.step)) or (isinstance(z, Const) and z.v is Ellipsis)
+    bands = []
+
+    def two(idx):
+        items = list(idx.items) if isinstance(idx, Tup) else [idx]
+        if len(items) == 1:
+            items.append(Slice(Const(None), Const(None), Const(None)))
+        if len(items) != 2:
+            raise AnalysisError('stencil: index is not 1- or 2-D')
+        return items
+
+    def cut(lo, hi):
+        """remove the rows [lo, hi) from every band (a plain store overwrites them)"""
+        kept = []
+        for (a, b, off, c) in bands:
+            s1, s2 = _affine_sign(dom, b - lo), _affine_sign(dom, hi - a)
+            if s1 is None or s2 is None:
+                raise AnalysisError('stencil: cannot order the rows of two stores')
+            if s1 <= 0 or s2 <= 0:
+                kept.append((a, b, off, c))
+                continue
+            sl, sh = _affine_sign(dom, lo - a), _affine_sign(dom, b - hi)
+            if sl is None or sh is None:
+                raise AnalysisError('stencil: cannot order the rows of two stores')
+            if sl > 0:
+                kept.append((a, lo, off, c))
+            if sh > 0:
+                kept.append((hi, b, off, c))
+        bands[:] = kept
     for e in p.events:
         if e['kind'] != 'store':
             continue
         tgt, idx, val = e['target'], e['index'], e['value']
-        if not (isinstance(idx, Tup) and len(idx.items) == 2):
-            raise AnalysisError('stencil: store index not 2-D')
-        other = idx.items[1 - axis]
-        if not (isinstance(other, Slice) and all(isinstance(z, Const) and z.v is None for z in (other.lo, other.hi, other.step))):
+        tb, ttr = _unview(tgt)
+        if tb is not out_arr:
+            raise AnalysisError('stencil: a store into an array that is not the result')
+        items = two(idx)
+        ax_t = (1 - eff) if ttr else eff           # the result axis `eff`, in the frame of the view stored through
+        if not full(items[1 - ax_t]):
             raise AnalysisError('stencil: the other axis is not a full slice')
-        s = idx.items[axis]
-        if not isinstance(s, Slice):
-            raise AnalysisError('stencil: store along the axis is not a slice')
-        n = tgt.shape.items[axis]
-        rlo, rhi = _slice_bounds(dom, s, n)
+        rlo, rhi = _slice_bounds(dom, items[ax_t], tgt.shape.items[ax_t])
+        accumulate = [False]
 
-        def terms(v, sign):
+        def terms(v, coef):
             if isinstance(v, Shaped) and v.origin is not None and v.origin[0] in ('Sub', 'Add'):
-                return terms(v.origin[1], sign) + terms(v.origin[2], sign if v.origin[0] == 'Add' else -sign)
+                return terms(v.origin[1], coef) + terms(v.origin[2], coef if v.origin[0] == 'Add' else -coef)
+            if isinstance(v, Shaped) and v.origin is not None and v.origin[0] == 'scale' and v.origin[1] in ('Mult', 'Div'):
+                r = dom.rat(v.origin[3])
+                if r is None or not (r.num.is_const() and r.den.is_const()) or r.is_zero():
+                    raise AnalysisError('stencil: scaled by something that is not a constant')
+                k = Fraction(r.num.const_value()) / Fraction(r.den.const_value())
+                return terms(v.origin[2], coef * k if v.origin[1] == 'Mult' else coef / k)
             if isinstance(v, Shaped) and v.origin is not None and v.origin[0] == 'slice':
                 src, sidx = v.origin[1], v.origin[2]
-                ss = sidx.items[axis]
-                o2 = sidx.items[1 - axis]
-                if not (isinstance(o2, Slice) and all(isinstance(z, Const) and z.v is None for z in (o2.lo, o2.hi, o2.step))):
+                sb, str_ = _unview(src)
+                sitems = two(sidx)
+                if sb is out_arr:
+                    ax_s = (1 - eff) if str_ else eff
+                    slo, shi = _slice_bounds(dom, sitems[ax_s], src.shape.items[ax_s])
+                    if full(sitems[1 - ax_s]) and slo == rlo and shi == rhi:
+                        accumulate[0] = True
+                        return []
+                    raise AnalysisError('stencil: reads the result at a different place than it writes')
+                if sb.label != xlabel:
+                    raise AnalysisError('stencil: reads %r, which is neither the input nor the result' % (sb.label,))
+                ax_s = (1 - axis) if str_ else axis        # the input axis `axis`, in the frame of the view read through
+                if not full(sitems[1 - ax_s]):
                     raise AnalysisError('stencil: source slice restricts the other axis')
-                slo, shi = _slice_bounds(dom, ss, src.shape.items[axis])
-                if src.label == xlabel:
-                    if not ((shi - slo) == (rhi - rlo)):
-                        raise AnalysisError('stencil: source and target slices have different lengths')
-                    return [(rlo, rhi, slo - rlo, sign)]
-                # accumulation into the same output slice: no contribution from the input
-                if (slo, shi) == (rlo, rhi):
-                    return []
-                raise AnalysisError('stencil: reads the output at a different slice')
+                slo, shi = _slice_bounds(dom, sitems[ax_s], src.shape.items[ax_s])
+                if not ((shi - slo) == (rhi - rlo)):
+                    raise AnalysisError('stencil: source and target slices have different lengths')
+                return [(rlo, rhi, slo - rlo, coef)]
+            if isinstance(v, Const) and v.v == 0:
+                return []
             raise AnalysisError('stencil: unsupported value %r' % (v,))
-        entries.extend(terms(val, 1))
-    return entries
+        new = terms(val, Fraction(1))
+        if not accumulate[0]:
+            cut(rlo, rhi)
+        bands.extend(new)
+    if not bands:
+        raise AnalysisError('stencil: no slice store into the result was followed (nothing to compare)')
+    return bands
 
 
 def canon(dom, entries, transpose=False):
-    out = set()
+    """normal form of a list of bands: per column offset, the rows are cut at every band edge, coefficients of overlapping bands are
+    added, zero bands dropped and neighbouring bands with one coefficient merged."""
+    from fractions import Fraction
+    by_off = {}
     for rlo, rhi, off, c in entries:
         if transpose:
             # entry (r, r+off) for r in [rlo, rhi)  ->  (r+off, r): rows [rlo+off, rhi+off), offset -off
             rlo, rhi, off = rlo + off, rhi + off, -off
-        out.add((rlo.key(), rhi.key(), off.key(), c))
+        by_off.setdefault(off.key(), []).append((rlo, rhi, off, Fraction(c)))
+    out = set()
+    for key, group in by_off.items():
+        pts = {}
+        for rlo, rhi, off, c in group:
+            pts[rlo.key()] = rlo
+            pts[rhi.key()] = rhi
+        import functools
+
+        def order(a, b):
+            s_ = _affine_sign(dom, a - b)
+            if s_ is None:
+                raise AnalysisError('stencil: cannot order band edges %s and %s' % (a.key(), b.key()))
+            return s_
+        edges = sorted(pts.values(), key=functools.cmp_to_key(order))
+        pieces = []
+        for a, b in zip(edges, edges[1:]):
+            tot = Fraction(0)
+            for rlo, rhi, off, c in group:
+                if order(rlo, a) <= 0 and order(b, rhi) <= 0:
+                    tot += c
+            if tot != 0:
+                if pieces and pieces[-1][1].key() == a.key() and pieces[-1][2] == tot:
+                    pieces[-1] = (pieces[-1][0], b, tot)
+                else:
+                    pieces.append((a, b, tot))
+        for a, b, tot in pieces:
+            out.add((a.key(), b.key(), key, str(tot)))
     return out
 
 
